@@ -749,6 +749,157 @@ theorem mkFrom_ok {s : Store α} {names : List String} {cb ch an : Bool} {lo hi 
 
 end ctor
 
+/-! ### dictionary items, rebuilding a vector from its own data -/
+section selfcopy
+variable {α : Type} [LinearOrder α]
+
+theorem items_spec (n : Nat) : ∀ (ns : List String) (vs los his ds : List (XR α)),
+    ns.length = n → vs.length = n → los.length = n → his.length = n → ds.length = n →
+    (items ns vs los his ds).length = n ∧ (items ns vs los his ds).map (·.name) = ns
+      ∧ (items ns vs los his ds).map (·.value) = vs ∧ (items ns vs los his ds).map (·.min) = los
+      ∧ (items ns vs los his ds).map (·.max) = his ∧ (items ns vs los his ds).map (·.default) = ds := by
+  induction n with
+  | zero =>
+    intro ns vs los his ds h1 h2 h3 h4 h5
+    cases ns <;> cases vs <;> cases los <;> cases his <;> cases ds <;> simp_all [items]
+  | succ n ih =>
+    intro ns vs los his ds h1 h2 h3 h4 h5
+    cases ns with
+    | nil => simp at h1
+    | cons a ns => cases vs with
+      | nil => simp at h2
+      | cons b vs => cases los with
+        | nil => simp at h3
+        | cons c los => cases his with
+          | nil => simp at h4
+          | cons d his => cases ds with
+            | nil => simp at h5
+            | cons e ds =>
+              have := ih ns vs los his ds (by simpa using h1) (by simpa using h2) (by simpa using h3)
+                (by simpa using h4) (by simpa using h5)
+              simp only [items, List.length_cons, List.map_cons, List.cons.injEq, true_and]
+              exact ⟨by omega, this.2.1, this.2.2.1, this.2.2.2.1, this.2.2.2.2.1, this.2.2.2.2.2⟩
+
+/-- a NaN among values that satisfy the invariant means NaN is allowed -/
+theorem valuesOk_nan_an (an : Bool) : ∀ (xs lo hi : List (XR α)), valuesOk an xs lo hi = true →
+    xs.length = lo.length → xs.length = hi.length → xs.any XR.isNaN = true → an = true := by
+  intro xs
+  induction xs with
+  | nil => intro lo hi _ _ _ h; simp at h
+  | cons x xs ih =>
+    intro lo hi hv h1 h2 hn
+    cases lo with
+    | nil => simp at h1
+    | cons l lo =>
+      cases hi with
+      | nil => simp at h2
+      | cons h hi =>
+        simp only [valuesOk, all3, Bool.and_eq_true] at hv
+        simp only [List.any_cons, Bool.or_eq_true] at hn
+        rcases hn with hn | hn
+        · have := hv.1
+          simp only [okElem, XR.within, hn, Bool.true_and, Bool.not_true, Bool.false_and, Bool.or_false] at this
+          exact this
+        · exact ih lo hi hv.2 (by simpa using h1) (by simpa using h2) hn
+
+theorem reject?_of_ok (an : Bool) (n : Nat) (xs : List (XR α)) (hl : xs.length = n)
+    (hn : xs.any XR.isNaN = true → an = true) : reject? an n xs = none := by
+  unfold reject?
+  simp only [hl, ne_eq, not_true_eq_false, if_false]
+  cases h : xs.any XR.isNaN
+  · simp
+  · simp [hn h]
+
+/-- `maxs` as a value vector for the interval `[mins, +∞]` -/
+theorem valuesOk_maxs (an : Bool) (n : Nat) : ∀ (lo hi : List (XR α)), lo.length = n → hi.length = n →
+    boundsOk lo hi = true → valuesOk an hi lo (List.replicate n .pinf) = true ∧
+      boundsOk lo (List.replicate n .pinf) = true := by
+  induction n with
+  | zero => intro lo hi h1 h2 _; cases lo <;> cases hi <;> simp_all [valuesOk, all3, boundsOk, all2]
+  | succ n ih =>
+    intro lo hi h1 h2 hb
+    cases lo with
+    | nil => simp at h1
+    | cons l lo =>
+      cases hi with
+      | nil => simp at h2
+      | cons h hi =>
+        simp only [boundsOk, all2, Bool.and_eq_true, boundElem, Bool.not_eq_true'] at hb
+        have := ih lo hi (by simpa using h1) (by simpa using h2) (by simpa [boundsOk] using hb.2)
+        simp only [List.replicate_succ, valuesOk, all3, boundsOk, all2, Bool.and_eq_true]
+        refine ⟨⟨?_, this.1⟩, ?_, this.2⟩
+        · have hp : XR.lt .pinf h = false := by cases h <;> simp [XR.lt]
+          simp [okElem, XR.within, hb.1.1.2, hb.1.2, hp]
+        · have hp : XR.lt .pinf l = false := by cases l <;> simp [XR.lt]
+          have hl0 : l.isNaN = false := hb.1.1.1
+          simp [boundElem, hl0, hp]; simp [XR.isNaN]
+
+end selfcopy
+
+section selfcopy_eps
+variable {α : Type} [LinearOrder α] [AddCommGroup α] [IsOrderedAddMonoid α]
+
+/-- the constructor accepts, unchanged, the bounds / defaults of a well-formed vector (fixed `clone`, `from_dict`) -/
+theorem mkArrays_self {eps : α} (heps : 0 ≤ eps) {names : List String} {cb ch an : Bool} {lo hi d : List (XR α)}
+    (h : ArraysOk names cb ch an lo hi d) :
+    mkArrays eps names (some d) (some lo) (some hi) cb ch an = .ok (lo, hi, d) := by
+  obtain ⟨nl, nh⟩ := boundsOk_noNaN lo hi h.bounds (by rw [h.len_lo, h.len_hi])
+  have hf : (ch && !cb) = false := by
+    cases hc : ch
+    · simp
+    · simp [h.flags hc]
+  have e1 : ctorMins an names.length (some lo) = .ok lo := by
+    simp only [ctorMins]
+    rw [reject?_of_ok an _ lo h.len_lo (by intro hx; rw [nl] at hx; simp at hx)]
+    simp [clipAll_inf _ lo h.len_lo]
+  obtain ⟨vm, bm⟩ := valuesOk_maxs an names.length lo hi h.len_lo h.len_hi h.bounds
+  have e2 : ctorMaxs eps an names.length lo (some hi) = .ok hi := by
+    simp only [ctorMaxs]
+    rw [reject?_of_ok an _ hi h.len_hi (by intro hx; rw [nh] at hx; simp at hx)]
+    simp only [hitAll_false_of_ok heps an hi lo _ vm, Bool.false_eq_true, if_false]
+    rw [clipAll_eq_self an hi lo _ bm vm (by rw [h.len_hi, h.len_lo]) (by simp [h.len_hi])]
+  have e3 : ctorDefaults eps an names.length lo hi (some d) = .ok d := by
+    simp only [ctorDefaults]
+    rw [reject?_of_ok an _ d h.len_d
+      (valuesOk_nan_an an d lo hi h.d_ok (by rw [h.len_d, h.len_lo]) (by rw [h.len_d, h.len_hi]))]
+    simp only [hitAll_false_of_ok heps an d lo hi h.d_ok, Bool.false_eq_true, if_false]
+    rw [clipAll_eq_self an d lo hi h.bounds h.d_ok (by rw [h.len_d, h.len_lo]) (by rw [h.len_d, h.len_hi])]
+  unfold mkArrays
+  simp only [hf, Bool.false_eq_true, if_false, h.names, Bool.not_true, e1, e2, e3]
+
+/-- constructor + values setter + hit flag on a well-formed vector's own data: accepted, and the result shows
+exactly the data it was given -/
+theorem rebuild_self {eps : α} (heps : 0 ≤ eps) (s : Store α) {names : List String} {cb ch an : Bool}
+    {lo hi d vals : List (XR α)} (hit : Bool) (h : ArraysOk names cb ch an lo hi d)
+    (hv : valuesOk an vals lo hi = true) (hl : vals.length = names.length) :
+    ∃ s' c, rebuild eps s names d lo hi vals hit cb ch an = .ok (s', c)
+      ∧ view s' c = ⟨names, vals, lo, hi, d, hit, cb, ch, an⟩ := by
+  obtain ⟨sp, ok1, vw⟩ := mkFrom_ok (s := s) h
+  have emk : mk eps s names (some d) (some lo) (some hi) cb ch an = .ok (mkFrom s names lo hi d cb ch an) := by
+    unfold mk; rw [mkArrays_self heps h]
+  generalize hmk : mkFrom s names lo hi d cb ch an = p at *
+  obtain ⟨s1, c1⟩ := p
+  simp only [view, View.mk.injEq] at vw
+  obtain ⟨v1, v2, v3, v4, v5, v6, v7, v8, v9⟩ := vw
+  have hrej : reject? c1.acceptNan c1.n vals = none := by
+    rw [v9, Vec.n, v1]
+    exact reject?_of_ok an _ vals hl
+      (valuesOk_nan_an an vals lo hi hv (by rw [hl, h.len_lo]) (by rw [hl, h.len_hi]))
+  have hclip : clipAll vals (s1.cells c1.mins) (s1.cells c1.maxs) = vals := by
+    rw [v3, v4]
+    exact clipAll_eq_self an vals lo hi h.bounds hv (by rw [hl, h.len_lo]) (by rw [hl, h.len_hi])
+  have r2 := ok1.lt_next c1.mins (by simp [Vec.refs])
+  have r3 := ok1.lt_next c1.maxs (by simp [Vec.refs])
+  have r4 := ok1.lt_next c1.defaults (by simp [Vec.refs])
+  refine ⟨(s1.alloc vals).1, { c1 with values := s1.next, hit := hit }, ?_, ?_⟩
+  · unfold rebuild
+    rw [emk]
+    simp only [setAll, hrej, hclip, alloc_ref]
+  · simp only [view, alloc_cells_new, alloc_cells_old s1 vals _ r2, alloc_cells_old s1 vals _ r3,
+      alloc_cells_old s1 vals _ r4, v1, v3, v4, v5, v7, v8, v9]
+
+end selfcopy_eps
+
 /-! ### rebuilding (clone / from_dict) and the world -/
 section world
 variable {α : Type} [LinearOrder α] [Add α] [Sub α]
@@ -965,6 +1116,62 @@ theorem spawn_rejected (w : World α) (k : Nat) (f : Store α → Vec → Except
     | ok p => simp [hf] at h
     | error e' => simp
 
+/-- appending a freshly allocated, well-formed vector keeps the world well formed and every existing vector
+as it was -/
+theorem append_ok {w : World α} {s' : Store α} {c : Vec} (hw : WorldOk w) (sp : Spawn w.store s' c)
+    (okc : VecOk s' c) :
+    WorldOk ⟨s', w.vecs ++ [c]⟩ ∧ ∀ j, j < w.vecs.length → (⟨s', w.vecs ++ [c]⟩ : World α).view j = w.view j := by
+  refine ⟨⟨?_, ?_⟩, ?_⟩
+  · intro j u hu
+    simp only [List.getElem?_append] at hu
+    split at hu
+    · exact (hw.each j u hu).congr sp.next_le (fun r hr => sp.frame r ((hw.each j u hu).lt_next r hr))
+    · rename_i hlt
+      have : j - w.vecs.length = 0 ∨ 0 < j - w.vecs.length := by omega
+      rcases this with h0 | h0
+      · simp only [h0, List.getElem?_cons_zero, Option.some.injEq] at hu; subst hu; exact okc
+      · have : ([c] : List Vec)[j - w.vecs.length]? = none := by
+          apply List.getElem?_eq_none; simp; omega
+        simp [this] at hu
+  · intro i j vi vj hi hj hij r hr
+    simp only [List.getElem?_append] at hi hj
+    have newc : ∀ (m : Nat) (u : Vec), ¬ m < w.vecs.length → ([c] : List Vec)[m - w.vecs.length]? = some u →
+        u = c ∧ m = w.vecs.length := by
+      intro m u hm hu
+      have : m - w.vecs.length = 0 ∨ 0 < m - w.vecs.length := by omega
+      rcases this with h0 | h0
+      · simp only [h0, List.getElem?_cons_zero, Option.some.injEq] at hu; exact ⟨hu.symm, by omega⟩
+      · have : ([c] : List Vec)[m - w.vecs.length]? = none := by
+          apply List.getElem?_eq_none; simp; omega
+        simp [this] at hu
+    split at hi <;> split at hj
+    · exact hw.sep i j vi vj hi hj hij r hr
+    · rename_i h1 h2
+      obtain ⟨rfl, _⟩ := newc j vj h2 hj
+      intro hm
+      have := sp.fresh r hm
+      have := (hw.each i vi hi).lt_next r hr; omega
+    · rename_i h1 h2
+      obtain ⟨rfl, _⟩ := newc i vi h1 hi
+      intro hm
+      have := sp.fresh r hr
+      have := (hw.each j vj hj).lt_next r hm; omega
+    · rename_i h1 h2
+      obtain ⟨_, e1⟩ := newc i vi h1 hi
+      obtain ⟨_, e2⟩ := newc j vj h2 hj
+      omega
+  · intro j hj
+    simp only [World.view, List.getElem?_append, hj, if_true]
+    cases hu : w.vecs[j]? with
+    | none => rfl
+    | some u =>
+      have okU := hw.each j u hu
+      have fr : ∀ r ∈ u.refs, s'.cells r = w.store.cells r :=
+        fun r hr => sp.frame r (okU.lt_next r hr)
+      simp only [Option.map_some, Option.some.injEq, view]
+      rw [fr u.values (by simp [Vec.refs]), fr u.mins (by simp [Vec.refs]), fr u.maxs (by simp [Vec.refs]),
+        fr u.defaults (by simp [Vec.refs])]
+
 /-- an allocation-only operation keeps the world well formed and every existing vector as it was -/
 theorem spawn_ok {w : World α} {k : Nat} {f : Store α → Vec → Except Err (Store α × Vec)} (hw : WorldOk w)
     (hf : ∀ v s' c, w.vecs[k]? = some v → f w.store v = .ok (s', c) → Spawn w.store s' c ∧ VecOk s' c) :
@@ -976,209 +1183,113 @@ theorem spawn_ok {w : World α} {k : Nat} {f : Store α → Vec → Except Err (
     split
     · rename_i s' c e
       obtain ⟨sp, okc⟩ := hf v s' c hk e
-      refine ⟨⟨?_, ?_⟩, ?_⟩
-      · intro j u hu
-        simp only [List.getElem?_append] at hu
-        split at hu
-        · exact (hw.each j u hu).congr sp.next_le (fun r hr => sp.frame r ((hw.each j u hu).lt_next r hr))
-        · rename_i hlt
-          have : j - w.vecs.length = 0 ∨ 0 < j - w.vecs.length := by omega
-          rcases this with h0 | h0
-          · simp only [h0, List.getElem?_cons_zero, Option.some.injEq] at hu; subst hu; exact okc
-          · have : ([c] : List Vec)[j - w.vecs.length]? = none := by
-              apply List.getElem?_eq_none; simp; omega
-            simp [this] at hu
-      · intro i j vi vj hi hj hij r hr
-        simp only [List.getElem?_append] at hi hj
-        have newc : ∀ (m : Nat) (u : Vec), ¬ m < w.vecs.length → ([c] : List Vec)[m - w.vecs.length]? = some u →
-            u = c ∧ m = w.vecs.length := by
-          intro m u hm hu
-          have : m - w.vecs.length = 0 ∨ 0 < m - w.vecs.length := by omega
-          rcases this with h0 | h0
-          · simp only [h0, List.getElem?_cons_zero, Option.some.injEq] at hu; exact ⟨hu.symm, by omega⟩
-          · have : ([c] : List Vec)[m - w.vecs.length]? = none := by
-              apply List.getElem?_eq_none; simp; omega
-            simp [this] at hu
-        split at hi <;> split at hj
-        · exact hw.sep i j vi vj hi hj hij r hr
-        · rename_i h1 h2
-          obtain ⟨rfl, _⟩ := newc j vj h2 hj
-          intro hm
-          have := sp.fresh r hm
-          have := (hw.each i vi hi).lt_next r hr; omega
-        · rename_i h1 h2
-          obtain ⟨rfl, _⟩ := newc i vi h1 hi
-          intro hm
-          have := sp.fresh r hr
-          have := (hw.each j vj hj).lt_next r hm; omega
-        · rename_i h1 h2
-          obtain ⟨_, e1⟩ := newc i vi h1 hi
-          obtain ⟨_, e2⟩ := newc j vj h2 hj
-          omega
-      · intro j hj
-        simp only [World.view, List.getElem?_append, hj, if_true]
-        cases hu : w.vecs[j]? with
-        | none => rfl
-        | some u =>
-          have okU := hw.each j u hu
-          have fr : ∀ r ∈ u.refs, s'.cells r = w.store.cells r :=
-            fun r hr => sp.frame r (okU.lt_next r hr)
-          simp only [Option.map_some, Option.some.injEq, view]
-          rw [fr u.values (by simp [Vec.refs]), fr u.mins (by simp [Vec.refs]), fr u.maxs (by simp [Vec.refs]),
-            fr u.defaults (by simp [Vec.refs])]
+      exact append_ok hw sp okc
     · exact ⟨hw, fun _ _ => rfl⟩
+
+theorem emptyWorld_ok : WorldOk (⟨Store.empty, []⟩ : World α) :=
+  ⟨fun k v h => by simp at h, fun i j vi vj h => by simp at h⟩
+
+theorem clone_effect [OfNat α 0] (eps : α) {s s' : Store α} {v c : Vec} (h : VecOk s v)
+    (e : clone eps s v = .ok (s', c)) : Spawn s s' c ∧ VecOk s' c := by
+  obtain ⟨n1, n2⟩ := boundsOk_noNaN _ _ h.bounds (by rw [h.len_mins, h.len_maxs])
+  exact rebuild_ok e n1 n2 h.hit_off
+
+theorem dictRT_effect [OfNat α 0] (eps : α) {s s' : Store α} {v c : Vec} (h : VecOk s v)
+    (e : fromDict eps s (toDict s v) = .ok (s', c)) : Spawn s s' c ∧ VecOk s' c := by
+  obtain ⟨n1, n2⟩ := boundsOk_noNaN _ _ h.bounds (by rw [h.len_mins, h.len_maxs])
+  obtain ⟨il, i1, i2, i3, i4, i5⟩ := items_spec v.n v.names (s.cells v.values) (s.cells v.mins) (s.cells v.maxs)
+    (s.cells v.defaults) rfl h.len_values h.len_mins h.len_maxs h.len_defaults
+  unfold fromDict at e
+  simp only [toDict, il, Nat.lt_irrefl, if_false] at e
+  have ht : List.take v.n (items v.names (s.cells v.values) (s.cells v.mins) (s.cells v.maxs) (s.cells v.defaults))
+      = items v.names (s.cells v.values) (s.cells v.mins) (s.cells v.maxs) (s.cells v.defaults) :=
+    List.take_of_length_le (by omega)
+  rw [ht, i1, i2, i3, i4, i5] at e
+  exact rebuild_ok e n1 n2 h.hit_off
+
+theorem step_length_le [OfNat α 0] (eps : α) (w : World α) (op : Op α) :
+    w.vecs.length ≤ (step eps w op).1.vecs.length := by
+  cases op with
+  | setAttr k nm x => simp [step, update_length]
+  | setKey k nm x => simp [step, update_length]
+  | setAll k xs => simp [step, update_length]
+  | reset k => simp [step, update_length]
+  | clone k =>
+    simp only [step, World.spawn]; split
+    · exact Nat.le_refl _
+    · split <;> simp
+  | dictRT k =>
+    simp only [step, World.spawn]; split
+    · exact Nat.le_refl _
+    · split <;> simp
+
+theorem sync_ok (eps : α) (w : World α) (t : Trans) (hw : WorldOk w) : WorldOk (sync eps w t) := by
+  unfold sync
+  split
+  · exact hw
+  · rename_i xs _
+    exact update_ok hw fun v s' v' hk e => setAll_effect eps (hw.each t.bc v hk) xs e
+
+theorem sync_view (eps : α) (w : World α) (t : Trans) (hw : WorldOk w) (j : Nat) (hj : j ≠ t.bc) :
+    (sync eps w t).view j = w.view j := by
+  unfold sync
+  split
+  · rfl
+  · rename_i xs _
+    exact update_view_other hw (fun v s' v' hk e => setAll_effect eps (hw.each t.bc v hk) xs e) j hj
+
+theorem VecOk.arraysOk {s : Store α} {v : Vec} (h : VecOk s v) :
+    ArraysOk v.names v.checkBounds v.checkHit v.acceptNan (s.cells v.mins) (s.cells v.maxs) (s.cells v.defaults) :=
+  ⟨h.len_mins, h.len_maxs, h.len_defaults, h.bounds, h.defaults_ok, h.names, h.flags⟩
 
 end world
 
-/-! ### dictionary items, rebuilding a vector from its own data -/
-section selfcopy
-variable {α : Type} [LinearOrder α]
-
-theorem items_spec (n : Nat) : ∀ (ns : List String) (vs los his ds : List (XR α)),
-    ns.length = n → vs.length = n → los.length = n → his.length = n → ds.length = n →
-    (items ns vs los his ds).length = n ∧ (items ns vs los his ds).map (·.name) = ns
-      ∧ (items ns vs los his ds).map (·.value) = vs ∧ (items ns vs los his ds).map (·.min) = los
-      ∧ (items ns vs los his ds).map (·.max) = his ∧ (items ns vs los his ds).map (·.default) = ds := by
-  induction n with
-  | zero =>
-    intro ns vs los his ds h1 h2 h3 h4 h5
-    cases ns <;> cases vs <;> cases los <;> cases his <;> cases ds <;> simp_all [items]
-  | succ n ih =>
-    intro ns vs los his ds h1 h2 h3 h4 h5
-    cases ns with
-    | nil => simp at h1
-    | cons a ns => cases vs with
-      | nil => simp at h2
-      | cons b vs => cases los with
-        | nil => simp at h3
-        | cons c los => cases his with
-          | nil => simp at h4
-          | cons d his => cases ds with
-            | nil => simp at h5
-            | cons e ds =>
-              have := ih ns vs los his ds (by simpa using h1) (by simpa using h2) (by simpa using h3)
-                (by simpa using h4) (by simpa using h5)
-              simp only [items, List.length_cons, List.map_cons, List.cons.injEq, true_and]
-              exact ⟨by omega, this.2.1, this.2.2.1, this.2.2.2.1, this.2.2.2.2.1, this.2.2.2.2.2⟩
-
-/-- a NaN among values that satisfy the invariant means NaN is allowed -/
-theorem valuesOk_nan_an (an : Bool) : ∀ (xs lo hi : List (XR α)), valuesOk an xs lo hi = true →
-    xs.length = lo.length → xs.length = hi.length → xs.any XR.isNaN = true → an = true := by
-  intro xs
-  induction xs with
-  | nil => intro lo hi _ _ _ h; simp at h
-  | cons x xs ih =>
-    intro lo hi hv h1 h2 hn
-    cases lo with
-    | nil => simp at h1
-    | cons l lo =>
-      cases hi with
-      | nil => simp at h2
-      | cons h hi =>
-        simp only [valuesOk, all3, Bool.and_eq_true] at hv
-        simp only [List.any_cons, Bool.or_eq_true] at hn
-        rcases hn with hn | hn
-        · have := hv.1
-          simp only [okElem, XR.within, hn, Bool.true_and, Bool.not_true, Bool.false_and, Bool.or_false] at this
-          exact this
-        · exact ih lo hi hv.2 (by simpa using h1) (by simpa using h2) hn
-
-theorem reject?_of_ok (an : Bool) (n : Nat) (xs : List (XR α)) (hl : xs.length = n)
-    (hn : xs.any XR.isNaN = true → an = true) : reject? an n xs = none := by
-  unfold reject?
-  simp only [hl, ne_eq, not_true_eq_false, if_false]
-  cases h : xs.any XR.isNaN
-  · simp
-  · simp [hn h]
-
-/-- `maxs` as a value vector for the interval `[mins, +∞]` -/
-theorem valuesOk_maxs (an : Bool) (n : Nat) : ∀ (lo hi : List (XR α)), lo.length = n → hi.length = n →
-    boundsOk lo hi = true → valuesOk an hi lo (List.replicate n .pinf) = true ∧
-      boundsOk lo (List.replicate n .pinf) = true := by
-  induction n with
-  | zero => intro lo hi h1 h2 _; cases lo <;> cases hi <;> simp_all [valuesOk, all3, boundsOk, all2]
-  | succ n ih =>
-    intro lo hi h1 h2 hb
-    cases lo with
-    | nil => simp at h1
-    | cons l lo =>
-      cases hi with
-      | nil => simp at h2
-      | cons h hi =>
-        simp only [boundsOk, all2, Bool.and_eq_true, boundElem, Bool.not_eq_true'] at hb
-        have := ih lo hi (by simpa using h1) (by simpa using h2) (by simpa [boundsOk] using hb.2)
-        simp only [List.replicate_succ, valuesOk, all3, boundsOk, all2, Bool.and_eq_true]
-        refine ⟨⟨?_, this.1⟩, ?_, this.2⟩
-        · have hp : XR.lt .pinf h = false := by cases h <;> simp [XR.lt]
-          simp [okElem, XR.within, hb.1.1.2, hb.1.2, hp]
-        · have hp : XR.lt .pinf l = false := by cases l <;> simp [XR.lt]
-          have hl0 : l.isNaN = false := hb.1.1.1
-          simp [boundElem, hl0, hp]; simp [XR.isNaN]
-
-end selfcopy
-
-section selfcopy_eps
+/-! ### the margin test against actual clipping -/
+section hitlemmas
 variable {α : Type} [LinearOrder α] [AddCommGroup α] [IsOrderedAddMonoid α]
 
-/-- the constructor accepts, unchanged, the bounds / defaults of a well-formed vector (fixed `clone`, `from_dict`) -/
-theorem mkArrays_self {eps : α} (heps : 0 ≤ eps) {names : List String} {cb ch an : Bool} {lo hi d : List (XR α)}
-    (h : ArraysOk names cb ch an lo hi d) :
-    mkArrays eps names (some d) (some lo) (some hi) cb ch an = .ok (lo, hi, d) := by
-  obtain ⟨nl, nh⟩ := boundsOk_noNaN lo hi h.bounds (by rw [h.len_lo, h.len_hi])
-  have hf : (ch && !cb) = false := by
-    cases hc : ch
-    · simp
-    · simp [h.flags hc]
-  have e1 : ctorMins an names.length (some lo) = .ok lo := by
-    simp only [ctorMins]
-    rw [reject?_of_ok an _ lo h.len_lo (by intro hx; rw [nl] at hx; simp at hx)]
-    simp [clipAll_inf _ lo h.len_lo]
-  obtain ⟨vm, bm⟩ := valuesOk_maxs an names.length lo hi h.len_lo h.len_hi h.bounds
-  have e2 : ctorMaxs eps an names.length lo (some hi) = .ok hi := by
-    simp only [ctorMaxs]
-    rw [reject?_of_ok an _ hi h.len_hi (by intro hx; rw [nh] at hx; simp at hx)]
-    simp only [hitAll_false_of_ok heps an hi lo _ vm, Bool.false_eq_true, if_false]
-    rw [clipAll_eq_self an hi lo _ bm vm (by rw [h.len_hi, h.len_lo]) (by simp [h.len_hi])]
-  have e3 : ctorDefaults eps an names.length lo hi (some d) = .ok d := by
-    simp only [ctorDefaults]
-    rw [reject?_of_ok an _ d h.len_d
-      (valuesOk_nan_an an d lo hi h.d_ok (by rw [h.len_d, h.len_lo]) (by rw [h.len_d, h.len_hi]))]
-    simp only [hitAll_false_of_ok heps an d lo hi h.d_ok, Bool.false_eq_true, if_false]
-    rw [clipAll_eq_self an d lo hi h.bounds h.d_ok (by rw [h.len_d, h.len_lo]) (by rw [h.len_d, h.len_hi])]
-  unfold mkArrays
-  simp only [hf, Bool.false_eq_true, if_false, h.names, Bool.not_true, e1, e2, e3]
+/-- the property's conditioning of assigned values: NaN, inside/on the bounds, or outside by more than EPS -/
+def inRegion (eps : α) (x lo hi : XR α) : Bool := x.isNaN || XR.within x lo hi || XR.outsideEps eps x lo hi
 
-/-- constructor + values setter + hit flag on a well-formed vector's own data: accepted, and the result shows
-exactly the data it was given -/
-theorem rebuild_self {eps : α} (heps : 0 ≤ eps) (s : Store α) {names : List String} {cb ch an : Bool}
-    {lo hi d vals : List (XR α)} (hit : Bool) (h : ArraysOk names cb ch an lo hi d)
-    (hv : valuesOk an vals lo hi = true) (hl : vals.length = names.length) :
-    ∃ s' c, rebuild eps s names d lo hi vals hit cb ch an = .ok (s', c)
-      ∧ view s' c = ⟨names, vals, lo, hi, d, hit, cb, ch, an⟩ := by
-  obtain ⟨sp, ok1, vw⟩ := mkFrom_ok (s := s) h
-  have emk : mk eps s names (some d) (some lo) (some hi) cb ch an = .ok (mkFrom s names lo hi d cb ch an) := by
-    unfold mk; rw [mkArrays_self heps h]
-  generalize hmk : mkFrom s names lo hi d cb ch an = p at *
-  obtain ⟨s1, c1⟩ := p
-  simp only [view, View.mk.injEq] at vw
-  obtain ⟨v1, v2, v3, v4, v5, v6, v7, v8, v9⟩ := vw
-  have hrej : reject? c1.acceptNan c1.n vals = none := by
-    rw [v9, Vec.n, v1]
-    exact reject?_of_ok an _ vals hl
-      (valuesOk_nan_an an vals lo hi hv (by rw [hl, h.len_lo]) (by rw [hl, h.len_hi]))
-  have hclip : clipAll vals (s1.cells c1.mins) (s1.cells c1.maxs) = vals := by
-    rw [v3, v4]
-    exact clipAll_eq_self an vals lo hi h.bounds hv (by rw [hl, h.len_lo]) (by rw [hl, h.len_hi])
-  have r2 := ok1.lt_next c1.mins (by simp [Vec.refs])
-  have r3 := ok1.lt_next c1.maxs (by simp [Vec.refs])
-  have r4 := ok1.lt_next c1.defaults (by simp [Vec.refs])
-  refine ⟨(s1.alloc vals).1, { c1 with values := s1.next, hit := hit }, ?_, ?_⟩
-  · unfold rebuild
-    rw [emk]
-    simp only [setAll, hrej, hclip, alloc_ref]
-  · simp only [view, alloc_cells_new, alloc_cells_old s1 vals _ r2, alloc_cells_old s1 vals _ r3,
-      alloc_cells_old s1 vals _ r4, v1, v3, v4, v5, v7, v8, v9]
+theorem elem_hit_iff {eps : α} (heps : 0 ≤ eps) (x l h : XR α) (hb : boundElem l h = true)
+    (hr : inRegion eps x l h = true) : XR.outsideEps eps x l h = true ↔ XR.clipNp x l h ≠ x := by
+  simp only [boundElem, Bool.and_eq_true, Bool.not_eq_true'] at hb
+  cases hx : x.isNaN
+  · rw [XR.clipNp_ne_iff x l h hx hb.1.1 hb.1.2 hb.2]
+    constructor
+    · exact XR.outside_of_outsideEps heps x l h
+    · intro ho
+      simp only [inRegion, hx, Bool.false_or, Bool.or_eq_true] at hr
+      rcases hr with hw | he
+      · simp only [XR.within, XR.outside, Bool.and_eq_true, Bool.not_eq_true', Bool.or_eq_true] at hw ho
+        rcases ho with ho | ho <;> simp_all
+      · exact he
+  · have := XR.isNaN_eq_nan hx; subst this
+    rw [XR.clipNp_nan]
+    cases l <;> cases h <;> simp [XR.outsideEps, XR.lt, XR.subEps, XR.addEps]
 
-end selfcopy_eps
+theorem hitAll_iff {eps : α} (heps : 0 ≤ eps) : ∀ (xs lo hi : List (XR α)), boundsOk lo hi = true →
+    all3 (inRegion eps) xs lo hi = true → xs.length = lo.length → xs.length = hi.length →
+    (hitAll eps xs lo hi = true ↔ clipAll xs lo hi ≠ xs) := by
+  intro xs
+  induction xs with
+  | nil => intro lo hi _ _ h1 h2; cases lo <;> cases hi <;> simp_all [hitAll, any3, clipAll, map3]
+  | cons x xs ih =>
+    intro lo hi hb hr h1 h2
+    cases lo with
+    | nil => simp at h1
+    | cons l lo =>
+      cases hi with
+      | nil => simp at h2
+      | cons h hi =>
+        simp only [boundsOk, all2, Bool.and_eq_true] at hb
+        simp only [all3, Bool.and_eq_true] at hr
+        have e1 := elem_hit_iff heps x l h hb.1 hr.1
+        have e2 := ih lo hi hb.2 hr.2 (by simpa using h1) (by simpa using h2)
+        simp only [hitAll] at e2
+        simp only [hitAll, any3, clipAll, map3, Bool.or_eq_true, ne_eq, List.cons.injEq, not_and_or]
+        simp only [clipAll] at e2
+        rw [e1, e2]
+end hitlemmas
 
 end HydroVerif.C12
